@@ -25,7 +25,7 @@ for f in sorted(os.listdir(os.path.join(V, 'kani'))):
             j -= 1
         if not any('kani::proof' in a for a in attrs):
             continue
-        if any(re.search(r'cfg\(verif_', a) for a in attrs):
+        if any(re.search(r'cfg\((verif_|any\(\))', a) for a in attrs):
             continue   # written but not closed: compiled out, not registered
         name = m.group(2)
         tier, kind, bound = 'quick', 'complete', ''
